@@ -8,7 +8,7 @@ CURSOR_FNS = ("tokenizer::tokenize_core", "tokenizer::handle_a2ml", "tokenizer::
 def cursor_table(prog):
     A = sym.Analyzer(prog, opaque=[r"tokenizer::.*", r"loader::.*", r"a2ml::.*"])
     out = {}
-    for fid in CURSOR_FNS:
+    for fid in diag.with_new_functions(prog, [f for f in CURSOR_FNS if f in prog.bodies]):
         rows = diag.cursor_rows(prog, A, fid)
         rows.sort(key=lambda r: (r[0], r[1]))
         if rows:
